@@ -95,7 +95,7 @@ static htp_status_t htp_connp_res_receiver_send_data(htp_connp_t *connp, int is_
 
     htp_tx_data_t d;
     d.tx = connp->out_tx;
-    d.data = connp->out_current_data + connp->out_current_receiver_offset;
+    d.data = (connp->out_current_data != NULL) ? connp->out_current_data + connp->out_current_receiver_offset : NULL;
     d.len = connp->out_current_read_offset - connp->out_current_receiver_offset;
     d.is_last = is_last;
 
